@@ -74,6 +74,11 @@ static bool dual_bound(const Model &m, const std::vector<Q> &pi, Q &bound, std::
   return true;
 }
 
+bool dual_bound_of(const Model &m, const std::vector<Q> &pi, Q &bound, std::string *why) {
+  if ((int)pi.size() < m.m()) { if (why) *why = "multiplier vector too short"; return false; }
+  return dual_bound(m, pi, bound, why);
+}
+
 bool verify_optimal(const Model &m, const std::vector<Q> &x, const std::vector<Q> &pi, Q *value, std::string *why) {
   auto W = [&](const std::string &s) { if (why) *why = s; return false; };
   if ((int)x.size() < m.n() || (int)pi.size() < m.m()) return W("solution vectors too short");
